@@ -375,4 +375,14 @@ theorem collisionFree_key (d : Dir) (k : Nat) (e : FName × File) (he : e ∈ en
         | nil => rw [hs] at hm; simp at hm
         | cons s ss => simp [hs] at hc
 
+/-! ### `mountNext`: the initial flush, then the rotation proper -/
+
+/-- when a rotation is due, `mountNext` flushes the `BufWriter` into the file that is rotated out
+    and then runs the rotation proper -/
+theorem mountNext_due (s : St) (a : Active) (r : RotCfg) (force : Bool) (now : Nat) (fl : Faults)
+    (h : (force || rotationNecessary r a now) = true) :
+    mountNext s a r force now fl =
+      mountNextCore (flushAct s a).1 (flushAct s a).2 r true now fl := by
+  simp [mountNext, h]
+
 end FV.FlwA
